@@ -49,7 +49,8 @@ func (e *env) encUnder(sk *rlwe.SecretKey, pt *rlwe.Plaintext, tag string) *rlwe
 // an independent fresh instance; the result is judged functionally under the ideal secret sk+sk2.
 func mpCases() []copyCase {
 	var cs []copyCase
-	noise := ring.DiscreteGaussian{Sigma: 3.2, Bound: 19.2}
+	// deliberately NOT the parameters' default error distribution: a copy that rebuilds its sampler from params.Xe() must differ
+	noise := ring.DiscreteGaussian{Sigma: 6.4, Bound: 38.4}
 
 	cs = append(cs, copyCase{name: "multiparty.PublicKeyGenProtocol.ShallowCopy", envKind: "rlwe", kind: shallow, concurrent: true, configs: []string{"default"},
 		build: func(e *env, cfg string) interface{} { p := multiparty.NewPublicKeyGenProtocol(e.p); return &p },
